@@ -169,7 +169,7 @@ def epoch_conversion(ct):
     return None
 
 
-def numeric_array_tabulation(ctx, report, pf, cf, formats):
+def numeric_array_tabulation(ctx, report, pf, cf, formats, RULE='C11.R1'):
     """_parse_numeric_array and _compose_numeric_array evaluated (sa.miniexec) for every width of the format table, the four
     byte orders and boundary values, with struct.pack / struct.unpack replaced by their documented meaning (prefix = byte
     order, code = width, struct.error for a value the code cannot hold or a buffer of another size).  Expected: the
@@ -194,19 +194,8 @@ def numeric_array_tabulation(ctx, report, pf, cf, formats):
         raise Unsupported('free name ' + nm)
 
     def hook(n, ev):
-        d = ast.unparse(n.func)
-        if d == 'struct.pack':
-            fmt, v = ev.ev(n.args[0]), ev.ev(n.args[1])
-            size = struct.calcsize('>' + fmt[1:])
-            if not isinstance(v, int) or isinstance(v, bool) or not 0 <= v < (1 << (8 * size)) or fmt[1:].lower() == fmt[1:] and v >= (1 << (8 * size - 1)):
-                raise error('argument out of range')
-            return v.to_bytes(size, endian[fmt[0]])
-        if d == 'struct.unpack':
-            fmt, b = ev.ev(n.args[0]), bytes(ev.ev(n.args[1]))
-            size = struct.calcsize('>' + fmt[1:])
-            if len(b) != size:
-                raise error('unpack requires a buffer of %d bytes' % size)
-            return (int.from_bytes(b, endian[fmt[0]], signed=fmt[1:].lower() == fmt[1:]),)
+        # struct.pack / struct.unpack / struct.calcsize are the standard library's own (sa.miniexec): prefix = byte order,
+        # code = width, struct.error for a value the code cannot hold or a buffer of another size
         return NotImplemented
 
     class Composer(Native):
@@ -236,7 +225,7 @@ def numeric_array_tabulation(ctx, report, pf, cf, formats):
                 for v in sorted({0, 1, 0x7f, 0x80, 0xff, top >> 1, (top >> 1) - 1, top - 1, top - 2, int.from_bytes(bytes(range(1, width + 1)), 'big')} - {-1}):
                     if v >= top:
                         continue
-                    report.count('C11.R1')
+                    report.count(RULE)
                     want = v.to_bytes(width, endian[prefix])
                     me = Composer(members[oname])
                     try:
@@ -245,7 +234,7 @@ def numeric_array_tabulation(ctx, report, pf, cf, formats):
                     except Raised as e:
                         got = 'raises ' + e.what[:40]
                     if got != want:
-                        report.add('C11.R1', cf.construct + '@value[%d,%s]' % (width, oname),
+                        report.add(RULE, cf.construct + '@value[%d,%s]' % (width, oname),
                                    'ByteOrder.%s, width %d: %#x is composed as %s, expected %s' % (oname, width, v, got.hex() if isinstance(got, bytes) else got, want.hex()))
                         break
                     pr = Parser(members[oname], b'\xee' + want + want + b'\xdd', 1)
@@ -254,35 +243,51 @@ def numeric_array_tabulation(ctx, report, pf, cf, formats):
                     except Raised as e:
                         res = 'raises ' + e.what[:40]
                     if not (isinstance(res, tuple) and len(res) == 2 and list(res[0]) == [v, v] and res[1] == 2 * width):
-                        report.add('C11.R1', pf.construct + '@value[%d,%s]' % (width, oname),
+                        report.add(RULE, pf.construct + '@value[%d,%s]' % (width, oname),
                                    'ByteOrder.%s, width %d: two items %s are parsed as %s, expected ([%#x, %#x], %d)' % (oname, width, want.hex(), res, v, v, 2 * width))
                         break
                 # refusal instead of truncation
                 for v in (top, top + 1, -1, top * 256 + 5):
-                    report.count('C11.R1')
+                    report.count(RULE)
                     me = Composer(members[oname])
                     try:
                         Evaluator({'self': me, cparams[0]: [v], cparams[1]: width}, chook, cnames).function(cf.node)
-                        report.add('C11.R1', cf.construct + '@narrowing[%d]' % width,
+                        report.add(RULE, cf.construct + '@narrowing[%d]' % width,
                                    'ByteOrder.%s: the value %#x does not fit %d byte(s) and is composed as %s instead of raising InvalidValue' % (oname, v, width, bytes(me._composed).hex()))
                         break
                     except Raised as e:
                         if 'InvalidValue' not in e.what:
-                            report.add('C11.R1', cf.construct + '@narrowing[%d]' % width, 'a value that does not fit raises %s, not InvalidValue' % e.what[:50])
+                            report.add(RULE, cf.construct + '@narrowing[%d]' % width, 'a value that does not fit raises %s, not InvalidValue' % e.what[:50])
                             break
                 # a short buffer is reported with the number of missing bytes
-                report.count('C11.R1')
+                report.count(RULE)
                 pr = Parser(members[oname], b'\x00' * (2 * width - 1), 0)
                 try:
                     Evaluator({'self': pr, pparams[0]: 'f', pparams[1]: 2, pparams[2]: width, pparams[3]: int}, phook, pnames).function(pf.node)
-                    report.add('C11.R1', pf.construct + '@short[%d]' % width, 'two %d byte items are parsed from %d bytes' % (width, 2 * width - 1))
+                    report.add(RULE, pf.construct + '@short[%d]' % width, 'two %d byte items are parsed from %d bytes' % (width, 2 * width - 1))
                 except Raised as e:
                     if 'NotEnoughData' not in e.what:
-                        report.add('C11.R1', pf.construct + '@short[%d]' % width, 'a short buffer raises %s, not NotEnoughData' % e.what[:50])
+                        report.add(RULE, pf.construct + '@short[%d]' % width, 'a short buffer raises %s, not NotEnoughData' % e.what[:50])
     except Unsupported as e:
-        report.sample({'rule': 'C11.R1', 'tabulation': 'not applicable (%s): syntactic padding / range rules used instead' % e})
+        report.sample({'rule': RULE, 'tabulation': 'not applicable (%s): syntactic padding / range rules used instead' % e})
         return False
     return True
+
+
+def numeric_widths_shared(ctx, report, RULE, title):
+    """the width / byte order tabulation of the numeric primitives under another property's rule id (the fixed width integers
+    of that property's messages are written and read by these two functions)"""
+    model = ctx.model
+    report.rule(RULE, title)
+    pf = method(model, 'ParserBinary', '_parse_numeric_array', report)
+    cf = method(model, 'ComposerBinary', '_compose_numeric_array', report)
+    table = ctx.interp.eval_var(model.resolve_name(model.modules['cryptoparser.common.parse'], '_SIZE_TO_FORMAT')) \
+        if 'cryptoparser.common.parse' in model.modules else None
+    if pf is None or cf is None or not hasattr(table, 'pairs'):
+        report.undecided.append('%s: numeric primitives / format table not found' % RULE)
+        return
+    if not numeric_array_tabulation(ctx, report, pf, cf, {k: v for k, v in table.pairs if isinstance(k, int) and isinstance(v, str)}, RULE=RULE):
+        report.undecided.append('%s: the numeric primitives left the subset the tabulation understands (C11.R1 reads their shape)' % RULE)
 
 
 def branch_for_order(ctx, f, width):
